@@ -396,7 +396,24 @@ func VerifMutex(hh handlers.Handler) (interface{}, uintptr) {
 	if !strings.Contains(string(ep), "metricsReadLock = new(sync.Mutex)") || !strings.Contains(string(hs), "lock *sync.RWMutex") {
 		die("metrics: metricsReadLock / hist.lock are no longer declared as expected: the C18 lock export cannot be generated")
 	}
+	for _, need := range []struct{ file, decl string }{{"counters.go", "curCounterID = new(uint32)"}, {"histograms.go", "curHistID"}, {"gauges.go", "curIntGaugeID = new(uint32)"},
+		{"gauges.go", "curFloatGaugeID = new(uint32)"}, {"callbackgauges.go", "curIntCbID"}, {"callbackgauges.go", "curFloatCbID"}, {"bulkcallback.go", "curBulkCbID = new(uint32)"}} {
+		b, err := os.ReadFile(filepath.Join(repo, "metrics", need.file))
+		if err != nil || !strings.Contains(string(b), need.decl) {
+			die("metrics/%s no longer declares %q: the registry-size export (C15) cannot be generated", need.file, need.decl)
+		}
+	}
 	mexp := `package metrics
+
+import "sync/atomic"
+
+// VerifRegistrySizes reports how many slots of each of the package's fixed-size registries are
+// taken (counters, histograms, int gauges, float gauges, int callbacks, float callbacks, bulk
+// callbacks): nothing a single client connection does may take one for good.
+func VerifRegistrySizes() [7]uint32 {
+	return [7]uint32{atomic.LoadUint32(curCounterID), atomic.LoadUint32(curHistID), atomic.LoadUint32(curIntGaugeID), atomic.LoadUint32(curFloatGaugeID),
+		atomic.LoadUint32(curIntCbID), atomic.LoadUint32(curFloatCbID), atomic.LoadUint32(curBulkCbID)}
+}
 
 // VerifScrapeLocks returns the scrape lock and the lock of one histogram (identities only).
 func VerifScrapeLocks(hist uint32) (interface{}, interface{}) { return metricsReadLock, hists[hist].lock }
